@@ -391,6 +391,9 @@ func (n *PathSelectorNode) Field(fieldName string) (PathNode, bool, error) {
 }
 
 func (n *PathSelectorNode) Get(src, dst reflect.Value) error {
+	if !src.IsValid() {
+		return fmt.Errorf("failed to get value from null")
+	}
 	switch src.Type().Kind() {
 	case reflect.Map:
 		iter := src.MapRange()
@@ -467,6 +470,9 @@ func (n *PathIndexNode) Field(fieldName string) (PathNode, bool, error) {
 }
 
 func (n *PathIndexNode) Get(src, dst reflect.Value) error {
+	if !src.IsValid() {
+		return fmt.Errorf("failed to get value from null")
+	}
 	switch src.Type().Kind() {
 	case reflect.Array, reflect.Slice:
 		if src.Len() > n.selector {
@@ -510,6 +516,9 @@ func (n *PathIndexAllNode) Field(fieldName string) (PathNode, bool, error) {
 }
 
 func (n *PathIndexAllNode) Get(src, dst reflect.Value) error {
+	if !src.IsValid() {
+		return fmt.Errorf("failed to get value from null")
+	}
 	switch src.Type().Kind() {
 	case reflect.Array, reflect.Slice:
 		var arr []interface{}
@@ -576,6 +585,9 @@ func (n *PathRecursiveNode) Index(_ int) (PathNode, bool, error) {
 func valueToSliceValue(v interface{}) []interface{} {
 	rv := reflect.ValueOf(v)
 	ret := []interface{}{}
+	if !rv.IsValid() {
+		return []interface{}{v}
+	}
 	if rv.Type().Kind() == reflect.Slice || rv.Type().Kind() == reflect.Array {
 		for i := 0; i < rv.Len(); i++ {
 			ret = append(ret, rv.Index(i).Interface())
@@ -586,6 +598,9 @@ func valueToSliceValue(v interface{}) []interface{} {
 }
 
 func (n *PathRecursiveNode) Get(src, dst reflect.Value) error {
+	if !src.IsValid() {
+		return fmt.Errorf("failed to get value from null")
+	}
 	if n.child == nil {
 		return fmt.Errorf("failed to get by recursive path ..%s", n.selector)
 	}
